@@ -137,6 +137,7 @@ type RWMutex struct {
 	epoch   int64
 	writer  bool
 	readers int
+	waitingWriters int // writers that have announced themselves: like sync.RWMutex, they block readers arriving later
 	vc      [MaxThreads]uint32 // released by writers
 	rvc     [MaxThreads]uint32 // released by readers
 }
@@ -144,7 +145,7 @@ type RWMutex struct {
 func (m *RWMutex) fresh(s *sched) {
 	if m.epoch != s.epoch {
 		m.epoch = s.epoch
-		m.writer, m.readers = false, 0
+		m.writer, m.readers, m.waitingWriters = false, 0, 0
 		m.vc, m.rvc = [MaxThreads]uint32{}, [MaxThreads]uint32{}
 	}
 }
@@ -160,8 +161,14 @@ func (m *RWMutex) Lock() {
 	}
 	m.fresh(s)
 	t := s.cur
+	// phase 1: the writer announces itself (from now on new readers wait) ...
+	t.pend = pending{kind: opYield, obj: m}
+	s.point(t)
+	m.waitingWriters++
+	// ... phase 2: and waits for the readers and writers that hold the lock
 	t.pend = pending{kind: opLock, obj: m, enabled: func() bool { return !m.writer && m.readers == 0 }}
 	s.point(t)
+	m.waitingWriters--
 	m.writer = true
 	joinVC(&t.vc, &m.vc)
 	joinVC(&t.vc, &m.rvc)
@@ -201,7 +208,7 @@ func (m *RWMutex) RLock() {
 	}
 	m.fresh(s)
 	t := s.cur
-	t.pend = pending{kind: opRLock, obj: m, enabled: func() bool { return !m.writer }}
+	t.pend = pending{kind: opRLock, obj: m, enabled: func() bool { return !m.writer && m.waitingWriters == 0 }}
 	s.point(t)
 	m.readers++
 	joinVC(&t.vc, &m.vc)
